@@ -330,7 +330,15 @@ example : let c := runSched (Win.winSys true) (Win.winInit, Win.winThreads) Win.
 `Evict` / `EvictionEvent` calls (`Evict` racing `EvictionEvent`, `Evict` racing another `Evict`; the
 events collected under the lock are triggered outside of it, one at a time).  Once every goroutine
 has returned, the real event handed out for a slot has triggered iff the slot is at or below the last
-evicted slot, and no event of such a slot is left (untriggered) in the map. -/
+evicted slot, and no event of such a slot is left (untriggered) in the map.
+
+**Hypothesis of the model:** `EvictionEvent` is one atomic step although the code only holds the *read*
+lock of the eviction state there — two `EvictionEvent(slot)` calls for the same slot run concurrently
+in the code, and what makes them hand out the same event is that `ShrinkingMap.GetOrCreate` is atomic
+(write lock, re-check of the key, create).  That is tied to the code by
+`C14_skeleton_ShrinkingMap_GetOrCreate` and by the `evictsame` stress scenario (8 barrier-started
+callers per fresh slot must get the same event object, and every handed-out event must have triggered
+after `Evict`). -/
 theorem C14_eviction_concurrent (ts : List EVT) (h0 : ∀ t ∈ ts, t.todo = []) (c : Cfg EV EVT)
     (hr : Reach evSys (EV.init, ts) c) (hq : ∀ t ∈ c.2, t.finished = true) :
     (∀ slot ∈ c.1.handed, slot ∈ c.1.trig ↔ c.1.evicted slot = true) ∧
@@ -468,10 +476,6 @@ theorem C14_skeleton_evictionState_evict : skel_evictionState_evict = [
   "lock e.mutex", "defer unlock e.mutex", "if{", "return", "}if", "if{", "}else{", "}if", "for{",
   "call e.evictionEvents.Get", "if{", "call e.evictionEvents.Delete", "}if", "}for", "return"] := by decide
 
-/-- evictionState.EvictionEvent (eviction_state_impl.go:40) -/
-theorem C14_skeleton_evictionState_EvictionEvent : skel_evictionState_EvictionEvent = [
-  "rlock e.mutex", "defer runlock e.mutex", "if{", "return", "}if", "return"] := by decide
-
 /-- derivedSet.inheritMutations (set_impl.go:304) -/
 theorem C14_skeleton_derivedSet_inheritMutations : skel_derivedSet_inheritMutations = [
   "lock s.mutex", "defer unlock s.mutex", "helper applyInheritedMutations", "for{",
@@ -547,12 +551,6 @@ theorem C14_skeleton_derivedSet_InheritFrom : skel_derivedSet_InheritFrom = [
   "call source.OnUpdate", "func{", "helper inheritMutations", "}func", "}for", "return"] := by decide
 
 
-/-- sortedSet.addSorted (sorted_set_impl.go:100) -/
-theorem C14_skeleton_sortedSet_addSorted : skel_sortedSet_addSorted = [
-  "lock s.mutex", "defer unlock s.mutex", "func{", "return", "}func", "if{", "func{", "if{", "}else{",
-  "lock s.mutex", "defer unlock s.mutex", "call s.elements.Get", "if{", "return", "}if", "}if",
-  "call s.updatePosition", "}func", "call s.weightVariable(element).OnUpdate", "}if"] := by decide
-
 
 /-- set.Apply (set_impl.go:50) -/
 theorem C14_skeleton_set_Apply : skel_set_Apply = [
@@ -580,6 +578,26 @@ theorem C14_skeleton_set_Compute : skel_set_Compute = [
   "lock s.mutex", "defer unlock s.mutex", "helper apply", "for{",
   "call registeredCallback.LockExecution", "if{", "call registeredCallback.Invoke",
   "call registeredCallback.UnlockExecution", "}if", "}for", "return"] := by decide
+
+
+/-- ShrinkingMap.GetOrCreate (shrinkingmap.go:102): optimistic read, then the write lock, **re-check**, create — the
+atomicity `evictionState.EvictionEvent` relies on while it only holds its read lock (hypothesis of
+`C14_eviction_concurrent`). -/
+theorem C14_skeleton_ShrinkingMap_GetOrCreate : skel_ShrinkingMap_GetOrCreate = [
+  "rlock s.mutex", "if{", "runlock s.mutex", "return", "}if", "runlock s.mutex", "lock s.mutex",
+  "defer unlock s.mutex", "if{", "return", "}if", "return"] := by decide
+
+
+/-- sortedSet.addSorted (sorted_set_impl.go:100) -/
+theorem C14_skeleton_sortedSet_addSorted : skel_sortedSet_addSorted = [
+  "lock s.mutex", "defer unlock s.mutex", "func{", "return", "}func", "helper GetOrCreate", "if{",
+  "func{", "if{", "}else{", "lock s.mutex", "defer unlock s.mutex", "call s.elements.Get", "if{",
+  "return", "}if", "}if", "call s.updatePosition", "}func", "call s.weightVariable(element).OnUpdate",
+  "}if"] := by decide
+
+/-- evictionState.EvictionEvent (eviction_state_impl.go:40) -/
+theorem C14_skeleton_evictionState_EvictionEvent : skel_evictionState_EvictionEvent = [
+  "rlock e.mutex", "defer runlock e.mutex", "if{", "helper GetOrCreate", "return", "}if", "return"] := by decide
 
 
 end Skeletons
